@@ -73,7 +73,12 @@ def gen_seq(ctx, k):
     sc.add(*cfggen.bus_lines(cfg, nodes), 'bus brackets 1', f'start {d} 0', 'quiesce', 'snap s0')
     n = rng.randrange(10, 80)
     lost_at = rng.randrange(3, n) if n > 4 and rng.random() < 0.4 else -1
+    reset_at = rng.randrange(3, n) if lost_at < 0 and n > 4 and rng.random() < 0.35 else -1
     for i in range(n):
+        if i == reset_at:
+            # the application re-reads the bus in mid-session (bidib_send_sys_reset): everything tracked starts again from the initial state -
+            # occupancy, address lists AND the trains derived from them
+            sc.add('reset', 'quiesce', 'flush', 'quiesce', f'snap reset{i}')
         if i == lost_at:
             # a detector board drops off the bus while trains stand on its segments: whatever the library does with those segments, the
             # trains must keep agreeing with the address lists (and nothing else is specified to change)
@@ -161,7 +166,7 @@ def eval_seq(ctx, r, cfg, nodes, meta):
         ctx.count('snapshots_checked')
         if (probs or diffs) and not bad:
             bad.append((e.get('tag'), probs, diffs))
-    fold.fold(m, r.events, begin, None, on_snap)
+    fold.fold(m, r.events, begin, None, on_snap, reset_restores_initial=True)
     ctx.evaluations += 1
     if bad:
         tag, probs, diffs = bad[0]
